@@ -274,3 +274,137 @@ def finish(pid, tier, seed, t0, chk, theorems, axioms, discharged, nprobes, inva
 
 
 HANDLERS = {"C19": check_C19}
+
+
+# ---------------------------------------------------------------------------------------------
+# C18 panic safety
+# ---------------------------------------------------------------------------------------------
+def check_C18(pid, tier, seed, chk):
+    import gen
+    t0 = time.time()
+    wdir = os.path.join(WORK, "C18")
+    os.makedirs(wdir, exist_ok=True)
+    notes, out_lines = [], []
+    violations = 0
+    ok_build, blog = chk.lean_build(["Caches.Properties.C18"])
+    theorems = chk.property_theorems(pid)
+    proof_break = []
+    if not ok_build:
+        proof_break.append("lake build Caches.Properties.C18 failed: " + "\n".join(l for l in blog.splitlines() if "error" in l)[:600])
+    hy = chk.hygiene()
+    if hy:
+        proof_break.append("forbidden constructs: " + "; ".join(hy[:5]))
+    axioms, aprob = ({}, ["build failed"]) if not ok_build else chk.audit_axioms(pid, theorems, wdir)
+    proof_break += aprob
+    discharged = len([t for t in theorems if t in axioms and set(axioms[t]) <= chk.ALLOWED_AXIOMS]) if ok_build else 0
+
+    ok_h, hlog, exe = chk.harness_build(False)
+    fexe = os.path.join(os.path.dirname(exe), "faultscan")
+    if not ok_h or not os.path.exists(fexe):
+        path = chk.write_replay(pid, seed, tier, "correspondence-break", ["harness does not build: " + hlog[-500:]], [], "", "build")
+        print("VIOLATION property=%s replay=%s no-failing-input-found" % (pid, path))
+        return 1
+    # short histories, every user call of every operation is a crash point
+    n = 60 if tier == "quick" else 1500
+    nops = 14 if tier == "quick" else 22
+    cases = []
+    nid = 1
+    for comp in ("rawlru", "slru", "twoq", "arc", "wtinylfu"):
+        opts = dict(variant="keys=trk hasher=default", iter=2, clone=2)
+        cs = gen.generate(comp, seed, n, nops, opts, first_id=nid)
+        nid += len(cs)
+        cases += cs
+    chunks = [cases[i::14] for i in range(14)]
+    hangs = []
+
+    def work(chunk):
+        script = "\n".join("\n".join(c) for c in chunk) + "\n"
+        out, crashed = [], []
+        rest = chunk
+        guard = 0
+        while rest and guard < 20:
+            guard += 1
+            script = "\n".join("\n".join(c) for c in rest) + "\n"
+            try:
+                p = subprocess.run([fexe], input=script.encode(), stdout=subprocess.PIPE, stderr=subprocess.PIPE, timeout=240)
+                txt, rc = p.stdout.decode("utf-8", "replace"), p.returncode
+            except subprocess.TimeoutExpired as e:
+                # an operation that does not terminate on a post-panic state: liveness, not memory safety; the case is
+                # recorded and skipped
+                txt, rc = (e.stdout or b"").decode("utf-8", "replace"), -999
+                hangs.append(1)
+            out.append(txt)
+            if rc == 0:
+                break
+            done = txt.count("\nDONE ") + (1 if txt.startswith("DONE ") else 0)
+            if done < len(rest) and rc != -999:
+                crashed.append(rest[done])
+            rest = rest[done + 1:]
+        return "".join(out), crashed
+    with ThreadPoolExecutor(max_workers=14) as ex:
+        results = list(ex.map(work, chunks))
+    txt = "".join(r[0] for r in results)
+    crashed = [c for r in results for c in r[1]]
+    open(os.path.join(wdir, "faultscan.txt"), "w").write(txt)
+    total_calls = fired = 0
+    sites = {}
+    fails = []
+    done_cases = 0
+    for line in txt.splitlines():
+        if line.startswith("DONE "):
+            done_cases += 1
+            m = re.search(r"calls=(\d+) fired=(\d+) sites=(\S*)", line)
+            if m:
+                total_calls += int(m.group(1))
+                fired += int(m.group(2))
+                for kv in m.group(3).split(","):
+                    if ":" in kv:
+                        k, v = kv.rsplit(":", 1)
+                        sites[k] = sites.get(k, 0) + int(v)
+        elif line.startswith("FAIL "):
+            fails.append(line)
+    bycase = {}
+    for f in fails:
+        head = f[5:].split(" | ")[0]
+        bycase.setdefault(head, []).append(f)
+    script_of = {c[0]: c for c in cases}
+    for head, fs in list(bycase.items())[:5]:
+        lines = script_of.get(head, [head, "end"])
+        what = ["oracle-failure: after an injected panic the cache is not memory safe"] + fs[:4] + \
+               ["replay: work/harness-target/release/faultscan < this file (FAIL lines = violation)"]
+        path = chk.write_replay(pid, seed, tier, "oracle-failure", what, lines, "", "f%s" % head.split()[1])
+        out_lines.append("VIOLATION property=%s replay=%s" % (pid, path))
+        violations += 1
+    for c in crashed[:3]:
+        what = ["oracle-failure: the process died (memory fault / abort) while a panic was being injected into this case",
+                "replay: work/harness-target/release/faultscan < this file"]
+        path = chk.write_replay(pid, seed, tier, "oracle-failure", what, c, "", "crash%s" % c[0].split()[1])
+        out_lines.append("VIOLATION property=%s replay=%s" % (pid, path))
+        violations += 1
+    if proof_break and violations == 0:
+        path = chk.write_replay(pid, seed, tier, "proof-break", ["proof-break: " + x for x in proof_break], [], "", "proof")
+        out_lines.append("VIOLATION property=%s replay=%s no-failing-input-found" % (pid, path))
+        violations += 1
+    cov = dict(obligations=max(len(theorems), 1), discharged=discharged,
+               checker_cmd="lake build Caches.Properties.C18; #print axioms; harness faultscan (panic injected at every user call)",
+               trusted_base=chk.TRUSTED + ["unwinding semantics of rustc; HashMap behaviour under a panicking Hash/Eq (hashbrown raw/mod.rs rehash guard)"],
+               theorems=theorems, axioms=axioms,
+               evaluations=fired, distinct_nontrivial=fired,
+               rule="every case (constructor + short op history) is re-run once per call the library makes into user code (Hash, Eq, Clone, Drop of keys/values, "
+                    "BuildHasher, KeyHasher, callback) with a panic injected at that call; afterwards the remaining operations and the drop are executed, with a "
+                    "pointer-checked structural audit after every operation, quarantined+poisoned freed memory and serial-numbered objects; non-trivial = injection that fired",
+               samples=[dict(case=c[0], ops=c[1:6]) for c in cases[:2]],
+               cases=done_cases, hangs_skipped=len(hangs), user_calls=total_calls, injections_fired=fired, sites=sites, crashed_cases=len(crashed),
+               notes=notes + proof_break, exhaustive=False)
+    chk.write_evidence(pid, tier, seed, time.time() - t0, cov,
+                       ["the abort-semantics model covers RawLRU's primitives; composite caches are covered by the fault-injection runs and by the ownership "
+                        "contracts of the primitives (DESIGN.md section 6/C18)"], violations)
+    for l in out_lines:
+        print(l)
+    if violations == 0:
+        print("OK property=%s tier=%s theorems=%d/%d cases=%d injections=%d wall=%.1fs" %
+              (pid, tier, discharged, len(theorems), done_cases, fired, time.time() - t0))
+    return 1 if violations else 0
+
+
+HANDLERS["C18"] = check_C18
